@@ -37,6 +37,7 @@ fn gate(p: &Partial, _t: Tier) -> Result<(), String> {
     super::need(p, "rejected-line", 1000)?;
     super::need(p, "filter-table-equal", 1000)?;
     super::need(p, "no-counter-line-without-c", 100)?;
+    super::need(p, "aged-table-untouched", 50)?;
     if p.traces_validated < 1000 {
         return Err(format!("only {} CLI traces validated", p.traces_validated));
     }
@@ -280,6 +281,39 @@ fn run(ctx: &mut Ctx) {
             }
         }
     }
+    // on a table whose rows are 30 s old: a line that is rejected or whose DF is not in the -f list
+    // leaves the table bit-identical (in particular it does not restart the last-contact age)
+    job += 1;
+    if ctx.mine(job) {
+        let seed_cfg = Cfg::new(&[]);
+        let t = new_table();
+        let _ = run_file(&seed_cfg, &join_lines(&[env.syms[5].line.clone(), env.syms[1].line.clone(), env.syms[10].line.clone()]), &t);
+        let mut aged = snapshot(&t);
+        crate::snap::tick_all(&mut aged, 30_000);
+        for (fi, filter) in env.filters.iter().enumerate() {
+            for (si, sym) in env.syms.iter().enumerate() {
+                let passes = sym.df.is_some_and(|d| filter.as_ref().is_none_or(|f| f.contains(&d)));
+                if passes {
+                    continue;
+                }
+                let o = opts_for(filter, true, true);
+                let ov: Vec<&str> = o.iter().map(|s| s.as_str()).collect();
+                let cfg = Cfg::new(&ov);
+                let t = crate::snap::restore(&aged);
+                let oc = run_file(&cfg, &join_lines(&[sym.line.clone()]), &t);
+                ctx.eval();
+                ctx.count("aged-table-untouched");
+                if !oc.is_ok() || snapshot(&t) != aged {
+                    ctx.violation(
+                        "C16/filtered-frame-touches-table",
+                        &format!("{}/f={fi}", sym.name),
+                        || format!("{} with filter set #{fi}: the frame is not applied, yet the 30 s old table changed: {}", sym.name, snapshot(&t).iter().zip(aged.iter()).filter(|(a, b)| a != b).map(|(a, b)| crate::snap::diff_fields(b, a).join("; ")).collect::<Vec<_>>().join(" | ")),
+                        || json!({"aged": true, "sym": si, "filter": fi}),
+                    );
+                }
+            }
+        }
+    }
     ctx.sample(|| json!({"sequence": ["DF17(A)", "junk", "DF4(B)", "DF17(B)"], "filter": "none", "expected_counter_lines": ["DF17:1", "DF4:1 DF17:1", "DF4:1 DF17:2"]}));
     ctx.sample(|| json!({"symbol_lines": env.syms.iter().map(|s| json!([s.name, String::from_utf8_lossy(&s.line)])).collect::<Vec<_>>()}));
     ctx.bound("sequence length", len);
@@ -294,6 +328,25 @@ fn replay(ctx: &mut Ctx, case: &Value) {
         return;
     }
     let env = Env::new();
+    if case.get("aged").is_some() {
+        let (si, fi) = (case.get("sym").and_then(|x| x.as_u64()).unwrap_or(0) as usize, case.get("filter").and_then(|x| x.as_u64()).unwrap_or(0) as usize);
+        let seed_cfg = Cfg::new(&[]);
+        let t = new_table();
+        let _ = run_file(&seed_cfg, &join_lines(&[env.syms[5].line.clone(), env.syms[1].line.clone(), env.syms[10].line.clone()]), &t);
+        let mut aged = snapshot(&t);
+        crate::snap::tick_all(&mut aged, 30_000);
+        let o = opts_for(&env.filters[fi], true, true);
+        let ov: Vec<&str> = o.iter().map(|s| s.as_str()).collect();
+        let cfg = Cfg::new(&ov);
+        let t = crate::snap::restore(&aged);
+        let oc = run_file(&cfg, &join_lines(&[env.syms[si].line.clone()]), &t);
+        let same = snapshot(&t) == aged;
+        crate::run::say(&format!("{} under [{}] on a 30 s old table: outcome {}, table unchanged: {same}", env.syms[si].name, cfg.label(), oc.label()));
+        if !oc.is_ok() || !same {
+            ctx.violation("C16/filtered-frame-touches-table", "replay", || "table changed".into(), || case.clone());
+        }
+        return;
+    }
     let seq: Vec<usize> = case.get("seq").and_then(|s| s.as_array()).map(|a| a.iter().filter_map(|x| x.as_u64().map(|v| v as usize)).collect()).unwrap_or_default();
     if case.get("noc").is_some() {
         eval_no_c(ctx, &env, &seq);
